@@ -155,6 +155,42 @@ pub fn typed_swap<T>(a: &mut T, b: &mut T) {
     }
 }
 
+/// Stubs for core's `memchr` / `memrchr` (used by `str::find(char)`, `ends_with(char)`, `split(char)` ...): the same result
+/// by a byte loop. core's versions scan word-sized chunks after aligning the pointer, which CBMC cannot follow on symbolic text.
+pub fn naive_memchr(x: u8, text: &[u8]) -> Option<usize> {
+    let mut i = 0;
+    while i < text.len() {
+        if text[i] == x {
+            return Some(i);
+        }
+        i += 1;
+    }
+    None
+}
+/// Stub for core's `str::chars().count()` fast path (word-at-a-time counting after `align_to`): count the non-continuation bytes.
+pub fn naive_count_chars(s: &str) -> usize {
+    let b = s.as_bytes();
+    let mut n = 0;
+    let mut i = 0;
+    while i < b.len() {
+        if (b[i] as i8) >= -0x40 {
+            n += 1;
+        }
+        i += 1;
+    }
+    n
+}
+pub fn naive_memrchr(x: u8, text: &[u8]) -> Option<usize> {
+    let mut i = text.len();
+    while i > 0 {
+        i -= 1;
+        if text[i] == x {
+            return Some(i);
+        }
+    }
+    None
+}
+
 /// The assertion the solver must discharge for all values (Kani requires a literal message);
 /// natively a panic, which the replay runner reports as a reproduced violation.
 #[macro_export]
@@ -201,6 +237,9 @@ macro_rules! vk_harness {
     ($name:ident, $body:block) => {
         #[cfg_attr(kani, kani::proof)]
         #[cfg_attr(kani, kani::stub(std::mem::swap, crate::vk::typed_swap))]
+        #[cfg_attr(kani, kani::stub(core::slice::memchr::memchr, crate::vk::naive_memchr))]
+        #[cfg_attr(kani, kani::stub(core::slice::memchr::memrchr, crate::vk::naive_memrchr))]
+        #[cfg_attr(kani, kani::stub(core::str::count::count_chars, crate::vk::naive_count_chars))]
         #[allow(dead_code)]
         pub(crate) fn $name() $body
     };
